@@ -36,7 +36,8 @@ def _unit(txt):
     return txt, Descriptors.HeavyAtomMolWt(Chem.MolFromSmiles(re.sub(r"\[[<>$]\]", "", txt).replace("()", "")))
 
 
-UNITS = [_unit(u) for u in ("[<]C[>]", "[<]CC[>]", "[<]CO[>]", "[<]CC(C)[>]", "[<]C(c1ccccc1)C[>]", "[<]CC(C(=O)OC)[>]", "[<]C(F)(F)C(F)(F)[>]")]
+UNITS = [_unit(u) for u in ("[<]C[>]", "[<]CC[>]", "[<]CO[>]", "[<]CC(C)[>]", "[<]C(c1ccccc1)C[>]", "[<]CC(C(=O)OC)[>]", "[<]C(F)(F)C(F)(F)[>]",
+                                   "[<][13CH2][13CH2][>]", "[<][13CH2]C([15NH2])[>]")]
 ALPHA = 1e-10
 
 
